@@ -121,6 +121,8 @@ pub struct Interp {
 	/// need not be visible (trees / rc keys have no overlay entry for removals)
 	pub relaxed_dead: bool,
 	pub excluded_known: std::cell::Cell<u64>,
+	/// transactions submitted through `Db::commit` instead of `Db::commit_changes`
+	pub via_commit_api: std::cell::Cell<u64>,
 	/// regression cases of known findings run without the exclusions
 	pub strict_known: bool,
 }
@@ -187,6 +189,7 @@ impl Interp {
 			ever_roots: BTreeSet::new(),
 			relaxed_dead: false,
 			excluded_known: std::cell::Cell::new(0),
+			via_commit_api: std::cell::Cell::new(0),
 			strict_known: false,
 		}
 	}
@@ -498,7 +501,25 @@ impl Interp {
 				self.universe[*col as usize].insert(*root);
 			}
 		}
-		let r = self.db().commit_changes(ops);
+		// the two public entry points: a transaction of plain writes and removals only goes, every
+		// other time (decided by its content, so that a replay takes the same path), through
+		// `Db::commit` (key, Some(value) | None) instead of `Db::commit_changes` (operations)
+		let plain_only = !tx.is_empty() && tx.iter().all(|(_, ch)| matches!(ch, RChange::Set(..) | RChange::Del(..)));
+		let via_commit = plain_only && tx.iter().map(|(c, ch)| match ch {
+			RChange::Set(k, v) => *c as usize + *k as usize + v.len(),
+			RChange::Del(k) => *c as usize + *k as usize + 1,
+			_ => 0,
+		}).sum::<usize>() % 2 == 0;
+		let r = if via_commit {
+			self.via_commit_api.set(self.via_commit_api.get() + 1);
+			self.db().commit(ops.into_iter().map(|(c, op)| match op {
+				Operation::Set(k, v) => (c, k, Some(v)),
+				Operation::Dereference(k) => (c, k, None),
+				_ => unreachable!(),
+			}))
+		} else {
+			self.db().commit_changes(ops)
+		};
 		match r {
 			Ok(()) => {},
 			Err(e) => {
@@ -1224,10 +1245,19 @@ impl Interp {
 						}
 						for (a, wc) in children.iter().zip(w.children.iter()) {
 							match self.db().get_node(col, *a) {
-								Ok(Some((d, ch))) =>
+								Ok(Some((d, ch))) => {
 									if h64(&d) != wc.data || ch.len() != wc.children.len() {
 										fail!("direct-node-mismatch", "col {col} root {root}: Db::get_node({a:#x}) differs from the model")
-									},
+									}
+									match self.db().get_node_children(col, *a) {
+										Ok(Some(c2)) =>
+											if c2 != ch {
+												fail!("direct-node-children-mismatch", "col {col} root {root}: Db::get_node_children({a:#x}) = {c2:?} but Db::get_node gave {ch:?}")
+											},
+										Ok(None) => fail!("direct-node-missing", "Db::get_node_children({a:#x}) = None for a node Db::get_node returns"),
+										Err(e) => fail!("direct-node-failed", "Db::get_node_children: {e}"),
+									}
+								},
 								Ok(None) => fail!("direct-node-missing", "Db::get_node({a:#x}) = None"),
 								Err(e) => fail!("direct-node-failed", "Db::get_node: {e}"),
 							}
